@@ -57,12 +57,21 @@ class View:
         return self.I.cmp(self.st, idv.get("stamp").get("0").t, self.stamp_term(tgt), "Eq")
 
 
-def touched_nodes(st):
+def touched_nodes(st, I=None):
     out = []
+    base = st.meta.get("base_nodes")
     for k, r in st.nodes.items():
+        if base is not None and k not in base:
+            continue
         if r.fresh or any(f in r.cur for f in LINKS + ("stamp", "data")):
             out.append(k)
+        elif I is not None and any(qw.guard(I, st, k) for qw in st.qwrites):
+            out.append(k)
     return out
+
+
+def qw_fields(view, k):
+    return {f for qw in view.st.qwrites if qw.guard(view.I, view.st, k) for f in qw.writes}
 
 
 def check_J(view, extra=()):
@@ -163,7 +172,13 @@ def check_J(view, extra=()):
         seen.add((tag,) + a)
         fn(*a)
 
-    W = touched_nodes(st) + [e for e in extra if e not in touched_nodes(st)]
+    W = touched_nodes(st, view.I)
+    W = W + [e for e in extra if e not in W]
+    for qw in st.qwrites:
+        # a generic member of the quantified set is checked like a named one
+        g = _generic_member(view, qw)
+        if g is not None and g not in W:
+            W.append(g)
     for w in W:
         r = st.nodes[w]
         if not r.invec:
@@ -190,8 +205,9 @@ def check_J(view, extra=()):
                             once("J0", J0, o, g)
         if not lv:
             continue
+        qf = qw_fields(view, w) if st.qwrites else ()
         for f in LINKS:
-            if f not in r.cur and not r.fresh:
+            if f not in r.cur and not r.fresh and f not in qf:
                 continue
             pre_v = view.pre(w, f)
             post_v = post(w, f)
@@ -241,24 +257,42 @@ def check_J(view, extra=()):
     return bad
 
 
+def _generic_member(view, qw):
+    """A generic individual satisfying the guard of a quantified write (if one can exist).
+    Created through a refinement of the terminal's snapshot (so that later forks can refer to it)."""
+    st = view.st
+    key = ("qwgen", qw.seq)
+    if key in st.meta:
+        return st.meta[key]
+    gf, gn = qw.guard_field, qw.guard_node
+    sc = st.copy()
+    feasible = True
+    try:
+        g = sc.new_node(True, "generic member")
+        sc.set_h0_link(g, gf, gn)
+        sc.propagate()
+    except Infeasible:
+        feasible = False
+
+    def mk(s):
+        if feasible:
+            g = s.new_node(True, "generic member of {m: H0[m].%s == %s}" % (gf, gn))
+            s.nodes[g].generic = "member"
+            s.set_h0_link(g, gf, gn)
+            s.meta[key] = g
+        else:
+            s.meta[key] = None
+    raise Fork([("generic member for %s" % (key,), mk)], "introduce a generic member")
+
+
 def _generic_child(view, a, check):
     """If `a` had children in the pre-state, check instance `check` on a generic interior child (when one can exist)."""
     st = view.st
     if st.nodes[a].fresh or view.pre(a, "first_child") is None:
         return
-    # can a further child of `a` exist at all?  (test on a copy: propagation mutates)
-    sc = st.copy()
-    try:
-        g = sc.new_node(True, "generic child of " + a)
-        sc.set_h0_link(g, "parent", a)
-        sc.propagate()
-    except Infeasible:
-        return
-    g = st.new_node(True, "generic child of " + a)
-    st.nodes[g].generic = "child"
-    st.set_h0_link(g, "parent", a)
-    st.propagate()
-    check(g)
+    g = _generic_member(view, QWriteProbe(a))
+    if g is not None:
+        check(g)
 
 
 def overlay(view):
@@ -269,8 +303,9 @@ def overlay(view):
         if r.fresh:
             out.append(("%s allocated" % k, None, "new slot"))
             continue
+        qf = qw_fields(view, k) if st.qwrites else ()
         for f in LINKS:
-            if f in r.cur or st.qwrites:
+            if f in r.cur or f in qf:
                 a, b = view.pre(k, f), view.post(k, f)
                 if a != b:
                     out.append(("%s.%s" % (k, f), a, b))
@@ -290,6 +325,8 @@ def overlay(view):
             out.append(("arena." + f, repr(v0), repr(v)))
     if st.len != st.len0:
         out.append(("arena.nodes.len", repr(st.len0), repr(st.len)))
+    for qw in st.qwrites:
+        out.append(("forall m with H0[m].%s == %s" % (qw.guard_field, qw.guard_node), "H0", {f: repr(v) for f, v in qw.writes.items()}))
     for e in st.events:
         if e[0] in ("clear",):
             out.append(("arena.nodes cleared", None, None))
@@ -305,15 +342,25 @@ def _same_nextfree(view, k, d1):
     return vkey(v0) == vkey(v1)
 
 
+class QWriteProbe:
+    """Stand-in with the interface _generic_member needs (guard only)."""
+
+    def __init__(self, x):
+        self.seq, self.guard_field, self.guard_node, self.writes = ("model", x), "parent", x, {"parent": None}
+
+
 # ------------------------------------------------------------------ reference model
 class Model:
     def __init__(self, view):
         self.v = view
         self.M = {}
+        self.q = None       # (x, P): every pre-state child of x gets parent P
 
     def get(self, n, f):
         if (n, f) in self.M:
             return self.M[(n, f)]
+        if f == "parent" and self.q is not None and not self.v.st.nodes[n].fresh and self.v.pre(n, "parent") == self.q[0]:
+            return self.q[1]
         return self.v.pre(n, f)
 
     def set(self, n, f, val):
@@ -360,6 +407,27 @@ class Model:
         elif name == "insert_before":
             self.gap(n)
             self.place(n, self.get(x, "parent"), self.get(x, "previous_sibling"), x)
+        elif name == "remove":
+            P, A, B = self.get(x, "parent"), self.get(x, "previous_sibling"), self.get(x, "next_sibling")
+            F, L = self.get(x, "first_child"), self.get(x, "last_child")
+            self.gap(x)
+            self.set(x, "first_child", None)
+            self.set(x, "last_child", None)
+            if F is not None:
+                self.q = (x, P)
+                # splice the child chain F..L between A and B under P
+                A2 = A
+                B2 = B
+                self.set(F, "previous_sibling", A2)
+                if A2 is not None:
+                    self.set(A2, "next_sibling", F)
+                elif P is not None:
+                    self.set(P, "first_child", F)
+                self.set(L, "next_sibling", B2)
+                if B2 is not None:
+                    self.set(B2, "previous_sibling", L)
+                elif P is not None:
+                    self.set(P, "last_child", L)
         else:
             raise Undecided("no model for " + name)
 
@@ -371,6 +439,31 @@ class Model:
             for f in LINKS:
                 if f in r.cur:
                     keys.add((k, f))
+        # quantified parts: compare on every named node in either quantified set and on a generic member
+        if st.qwrites or self.q is not None:
+            for qw in st.qwrites:
+                g = _generic_member(self.v, qw)
+                if g is not None:
+                    for f in qw.writes:
+                        keys.add((g, f))
+            for k, r in list(st.nodes.items()):
+                if r.fresh or not r.live0:
+                    continue
+                for qw in st.qwrites:
+                    if qw.guard(self.v.I, st, k):
+                        for f in qw.writes:
+                            keys.add((k, f))
+                if self.q is not None:
+                    pk = st.h0_link(k, "parent")
+                    if pk == self.q[0]:
+                        keys.add((k, "parent"))
+            if self.q is not None and not st.qwrites:
+                out0 = [("children of %s" % self.q[0], "all re-parented to %s" % self.q[1], "no quantified write in the implementation")]
+                # a generic child must agree too
+                qq = QWriteProbe(self.q[0])
+                g = _generic_member(self.v, qq)
+                if g is not None:
+                    keys.add((g, "parent"))
         out = []
         for (n, f) in sorted(keys):
             exp = self.get(n, f)
